@@ -5,7 +5,7 @@ CONSTANTS
   Scenes = {"submit"}
   ChainKinds = {"x509", "precert", "precertPreIssuer"}
   Firsts = {"cert", "lax", "garbage", "none"}
-  Statuses = {200, 204, 400, 404, 500}
+  Statuses = {200, 400, 500}
   FinalClasses = {"valid", "validWithExtensions", "sigByOther", "idOfOther", "validForOther", "sigCorrupt", "sigOverOtherChain", "sigOverOtherType", "sigOverOtherTimestamp", "sigTrailingTLS", "idLen31", "idLen0"}
   RetryStatuses = {408, 429, 503}
   RetryAfterForms = {"zero"}
